@@ -14,7 +14,7 @@ with the queue histories of real searches by the SEARCH-based checks (layer
 
 import pickle
 
-from ..core import Violation
+from ..core import Violation, pickle_roundtrip
 from ..ref.queue import QueueMonitor, QueueViolation
 from .. import seams  # noqa: F401
 
@@ -261,7 +261,7 @@ def execute(R, ctx):
                 if n > bound:
                     raise Violation("liveness-bound", f"do_level() handed out more than {bound} packets")
         elif k == "restart":
-            q2 = pickle.loads(pickle.dumps(q))
+            q2 = pickle_roundtrip(q, "C16")
             if not q2 == q:
                 raise Violation("restart-unequal", "queue != its pickle round trip")
             q = q2
